@@ -200,18 +200,24 @@ bad_format:
 }
 
 /*
- * vnadata_set_format: set the format string
- *   @vdp: a pointer to the vnadata_t structure
+ * _vnadata_set_format: set the format string
+ *   @vdip: internal parameter matrix
  *   @format: a comma-separated case-insensitive list of the following:
  *     [{S,Z,Y,T,H,G,A,B}][{ri,ma,dB}]
  *     {il,rl}
  *     zin[{ri,ma}]
  *     {prc,prl,src,srl}
  *     vswr
+ *   @filename: NULL if called on behalf of the application; when the
+ *     format string was read from a file, the name of the file
+ *   @line: line number in filename
+ *
+ *   An invalid format is a usage error when it comes from the application
+ *   and a syntax error in the file when it comes from a file.
  */
-int vnadata_set_format(vnadata_t *vdp, const char *format)
+int _vnadata_set_format(vnadata_internal_t *vdip, const char *format,
+	const char *filename, int line)
 {
-    vnadata_internal_t *vdip;
     vnadata_format_descriptor_t *vfdp_new = NULL;
     vnadata_format_descriptor_t *vfdp_old;
     int old_count;
@@ -220,19 +226,6 @@ int vnadata_set_format(vnadata_t *vdp, const char *format)
     char *cur;
     int nfields = 0;
     int rc = -1;
-
-    /*
-     * Validate pointer.
-     */
-    if (vdp == NULL) {
-	errno = EINVAL;
-	return -1;
-    }
-    vdip = VDP_TO_VDIP(vdp);
-    if (vdip->vdi_magic != VDI_MAGIC) {
-	errno = EINVAL;
-	return -1;
-    }
 
     /*
      * If format is NULL, clear the format.
@@ -256,8 +249,13 @@ int vnadata_set_format(vnadata_t *vdp, const char *format)
     cur = format_copy;
     for (const char *cp = format; *cp != '\000'; ++cp) {
 	if (*cp > 0x7e) {
-	    _vnadata_error(vdip, VNAERR_USAGE, "vnadata_set_format: "
-		    "invalid char '\\%02x' in format", *cp);
+	    if (filename != NULL) {
+		_vnadata_error(vdip, VNAERR_SYNTAX, "%s (line %d) error: "
+			"invalid char '\\%02x' in format", filename, line, *cp);
+	    } else {
+		_vnadata_error(vdip, VNAERR_USAGE, "vnadata_set_format: "
+			"invalid char '\\%02x' in format", *cp);
+	    }
 	    goto out;
 	}
 	if (isspace(*cp)) {
@@ -288,8 +286,14 @@ int vnadata_set_format(vnadata_t *vdp, const char *format)
     cur = format_copy;
     for (int i = 0;;) {
 	if (parse_format(&vfdp_new[i], cur) == -1) {
-	    _vnadata_error(vdip, VNAERR_USAGE,
-		    "invalid format specifier: \"%s\"", cur);
+	    if (filename != NULL) {
+		_vnadata_error(vdip, VNAERR_SYNTAX, "%s (line %d) error: "
+			"invalid format specifier: \"%s\"",
+			filename, line, cur);
+	    } else {
+		_vnadata_error(vdip, VNAERR_USAGE,
+			"invalid format specifier: \"%s\"", cur);
+	    }
 	    goto out;
 	}
 	if (++i >= nfields) {
@@ -324,4 +328,25 @@ out:
     free((void *)vfdp_new);
     free((void *)format_copy);
     return rc;
+}
+
+/*
+ * vnadata_set_format: set the format string
+ *   @vdp: a pointer to the vnadata_t structure
+ *   @format: comma-separated list of format specifiers (see above)
+ */
+int vnadata_set_format(vnadata_t *vdp, const char *format)
+{
+    vnadata_internal_t *vdip;
+
+    if (vdp == NULL) {
+	errno = EINVAL;
+	return -1;
+    }
+    vdip = VDP_TO_VDIP(vdp);
+    if (vdip->vdi_magic != VDI_MAGIC) {
+	errno = EINVAL;
+	return -1;
+    }
+    return _vnadata_set_format(vdip, format, NULL, 0);
 }
